@@ -167,6 +167,15 @@ def windows(template, info):
         BLANK['udf_fsd_blank'] = (info['udf_fsd'] * 2048, info['udf_fsd'] * 2048 + 2048)
         w['udf_fsd_blank'] = (info['udf_fsd'] * 2048, 8, 'file set descriptor: sector zeroed, tag bytes symbolic')
         w['udf_nsr'] = (19 * 2048, 7, 'NSR descriptor')
+    # blank sectors (an unwritten / zeroed sector where a structure is expected), first 8 bytes symbolic: generic over the structures
+    blanks = [('vdst', 17 if 'br_ext' not in info and 'svd_ext' not in info else None), ('root_dir', info['root_ext']), ('ptr_le', info['ptr_le']), ('ptr_be', info['ptr_be']),
+              ('dir1', info.get('dir1_ext')), ('svd', info.get('svd_ext')), ('jroot', info.get('jroot_ext')),
+              ('ce', info['ce_pos'] // 2048 if 'ce_pos' in info else None), ('br', info.get('br_ext')), ('cat', info.get('cat_ext')),
+              ('udf_lvd', info.get('udf_lvd')), ('udf_pd', info.get('udf_pd')), ('udf_fid', info.get('udf_fid')), ('udf_anchor', 256 if 'udf_fsd' in info else None)]
+    for nm, sec in blanks:
+        if sec is not None:
+            BLANK[nm + '_blank'] = (sec * 2048, sec * 2048 + 2048)
+            w[nm + '_blank'] = (sec * 2048, 8, '%s: sector zeroed, first 8 bytes symbolic' % nm)
     # extent fields: a fully symbolic extent makes the image model enumerate every read position (measured: > 1000 paths, not
     # exhausted in 15 min).  They are split into the LOW byte (all 256 sectors around/inside the ~30-sector template: self, parent,
     # sibling, data, beyond the end) and the third byte (65536-sector steps: far outside the image).
@@ -300,6 +309,15 @@ THOROUGH = {
 QUICK_RANGED = {
     'T1': [('root_rec3_len', [[0, 40], [250, 255]]), ('root_rec3_lenfi', [[0, 12], [200, 255]])],
 }
+# blank-sector windows (sector zeroed, first 8 bytes symbolic).  Measured (16 cores busy): cat / udf_anchor / udf_fid / udf_fsd / udf_root_fe
+# exhaust in < 60 s; svd / br / vdst in 6-7 min (1300 paths: thorough tier); root_dir / dir1 / ptr_le / ptr_be / jroot / ce / udf_lvd / udf_pd did
+# NOT exhaust in 900 s (a blank directory or descriptor keeps the parser walking the rest of the template symbolically): outside the claim, not run.
+BLANK_QUICK = {'T3': ['cat_blank'], 'T4': ['udf_anchor_blank', 'udf_fid_blank']}
+BLANK_THOROUGH = {'T1': ['vdst_blank'], 'T2': ['svd_blank'], 'T3': ['cat_blank', 'br_blank'], 'T4': ['udf_anchor_blank', 'udf_fid_blank', 'vdst_blank']}
+for _t in BLANK_QUICK:
+    QUICK[_t] = QUICK[_t] + BLANK_QUICK[_t]
+for _t in BLANK_THOROUGH:
+    THOROUGH[_t] = THOROUGH[_t] + BLANK_THOROUGH[_t]
 RANGES = h.P.get('ranges')
 
 
